@@ -14,6 +14,14 @@ P = {
          "TLC proves (bounded, exhaustive) that the implementation-shaped Resolve satisfies Under/DotFree=>Join; every real "
          "result on the same finite space plus seeded byte strings is then judged by the statement-layer operators",
          "lexical POSIX path semantics as transcribed in UrlPath.tla; symlinks out of scope", "5/C17"),
+
+ "C16": ("spec/util/ShellQuote.tla (+ShellQuoteMC, ShellQuoteCases)",
+         "TLA+ model of the POSIX shell lexer (quoting, word splitting, expansion flags) + implementation-shaped Escape; "
+         "TLC exhaustive over all strings <= 4/5 over the 15 special classes; real ShellEscape outputs judged by TLC with "
+         "the lexer model, the model itself validated on the same texts by real dash and bash",
+         "TLC proves (bounded, exhaustive) that the quoting scheme is read back as one literal word by the lexer model; every "
+         "real output on the same space plus seeded byte strings is judged by that model; a violation needs model and real shells to agree",
+         "the lexer model in ShellQuote.tla (validated against dash/bash on every judged text); C locale; HOME fixed", "5/C16"),
 }
 
 NOT_BUILT_REASON = "check not built yet in this session (see DESIGN.md section 5 for the planned TLA+ spec and binding)"
